@@ -88,9 +88,20 @@ func config(tier string) *opspace.Config {
 	cfg := &opspace.Config{
 		Property: prop,
 		Drivers:  hx.Drivers,
-		Inits:    []string{"empty"},
+		Inits:    []string{"empty", "seeded11"},
 		MakeInit: func(drv, init string) *hx.World {
 			w := hx.NewWorld(drv)
+			if init == "seeded11" {
+				// two-digit revisions: the Kubernetes backends list records in name order (v1, v10, v11, v2, ...)
+				w.Exec(hx.Op{Kind: "install", Release: "r", Chart: chartA}, nil)
+				for i := 0; i < 10; i++ {
+					ch := chartB
+					if i%2 == 1 {
+						ch = chartA
+					}
+					w.Exec(hx.Op{Kind: "upgrade", Release: "r", Chart: ch}, nil)
+				}
+			}
 			if init == "seeded5" {
 				// a 5-revision history produced by real operations
 				w.Exec(hx.Op{Kind: "install", Release: "r", Chart: chartA}, nil)
@@ -104,12 +115,28 @@ func config(tier string) *opspace.Config {
 			}
 			return w
 		},
-		Alphabet: func(_ *hx.World, _ []*rspb.Release, _ []opspace.Step) []opspace.Step {
+		Alphabet: func(_ *hx.World, hist []*rspb.Release, _ []opspace.Step) []opspace.Step {
 			var out []opspace.Step
+			if len(hist) >= 9 {
+				// long seeded history: the operations that prune
+				for _, o := range []hx.Op{
+					{Kind: "upgrade", Chart: chartB, MaxHistory: 10}, {Kind: "upgrade", Chart: chartA, MaxHistory: 3},
+					{Kind: "rollback", Version: 0, MaxHistory: 10}, {Kind: "rollback", Version: 0, MaxHistory: 5},
+				} {
+					out = append(out, opspace.Step{Op: o})
+				}
+				return out
+			}
 			for _, o := range ops {
 				out = append(out, opspace.Step{Op: o})
 			}
 			return out
+		},
+		DepthFor: func(init string) int {
+			if init == "seeded11" {
+				return 2
+			}
+			return 0
 		},
 		MaxDepth:  3,
 		MaxFaulty: 1,
@@ -135,7 +162,7 @@ func config(tier string) *opspace.Config {
 		},
 	}
 	if thorough {
-		cfg.Inits = []string{"empty", "seeded5"}
+		cfg.Inits = []string{"empty", "seeded11", "seeded5"}
 		cfg.MaxDepth = 3
 		cfg.MaxFaulty = 2
 	}
@@ -371,9 +398,16 @@ func check(c *core.Ctx, t *opspace.Transition) {
 		}
 		if len(removed) > 0 {
 			c.Floor("pruned")
+			// a revision whose own delete was the injected fault cannot be removed: it is not a candidate
+			failedDelete := -1
+			if f := t.Step.Fault; f != nil && (f.Kind == "store-fail" || f.Kind == "crash") {
+				if m := revRe.FindStringSubmatch(f.Label); m != nil && (strings.HasPrefix(f.Label, "DELETE ") || strings.HasPrefix(f.Label, "store:Delete ")) {
+					fmt.Sscan(m[1], &failedDelete)
+				}
+			}
 			var cand []int
 			for _, r := range pre {
-				if r.Version != depV {
+				if r.Version != depV && r.Version != failedDelete {
 					cand = append(cand, r.Version)
 				}
 			}
